@@ -237,6 +237,16 @@ static void fam_c01_random(G& g, Plan& p) {
     else if (x < p_free + 0.17) P.ops.push_back(mk(OP_collect, -1, g.below(2)));
     else if (x < p_free + 0.19) P.ops.push_back(mk(OP_advance, -1, g.pick<uint64_t>({0, 1, 9, 10, 11, 100, 3600000})));
     else if (x < p_free + 0.20) P.ops.push_back(mk(OP_verify_all));
+    else if (g.chance(0.04)) {     // operator-new entry points (abort on failure: this family injects no faults and stays below the limits)
+      size_t sz = gen_size(g, mix & ~SM_HUGE); int v = (int)g.below(7);
+      if (v == 0) P.ops.push_back(mk(OP_new_plain, slot, sz));
+      else if (v == 1) { size_t n = 1 + g.below(6); P.ops.push_back(mk(OP_new_n, slot, n, sz / n)); }
+      else if (v == 2) P.ops.push_back(mk(OP_new_aligned, slot, sz, (size_t)1 << g.below(13)));
+      else if (v == 3) { Op o = mk(OP_heap_alloc_new, slot, sz); o.hslot = nh ? (int)g.below((uint64_t)nh) : -1; P.ops.push_back(o); }
+      else if (v == 4) { size_t n = 1 + g.below(6); Op o = mk(OP_heap_alloc_new_n, slot, n, sz / n); o.hslot = nh ? (int)g.below((uint64_t)nh) : -1; P.ops.push_back(o); }
+      else if (v == 5) P.ops.push_back(mk(OP_new_realloc, slot, sz));
+      else { size_t n = 1 + g.below(6); P.ops.push_back(mk(OP_new_reallocn, slot, n, sz / n)); }
+    }
     else P.ops.push_back(gen_alloc(g, slot, mix, nh, true));
   }
 }
@@ -1358,6 +1368,40 @@ static void fam_c15_arenas(G& g, Plan& p) {
   P0.ops.push_back(mk(OP_verify_all));
 }
 
+
+// adoption routed by heap tag: a heap that may not adopt itself (mi_heap_new: can be destroyed) or that has another tag asks for
+// a fresh segment and reclaims an abandoned one; its pages go to "a heap with the page's tag" of the thread -- which must not be
+// a heap bound to an arena the memory does not belong to
+static void fam_c15_reclaim_route(G& g, Plan& p) {
+  if (g.chance(0.3)) set_env(p, "ABANDONED_RECLAIM_ON_FREE", g.pick({0, 1}));
+  if (g.chance(0.3)) set_env(p, "MAX_SEGMENT_RECLAIM", 100);
+  int nleave = 1 + (int)g.below(2);
+  int nt = 1 + nleave;
+  p.nslots = 200; p.progs.resize((size_t)nt);
+  Program& P0 = p.progs[0];
+  std::vector<size_t> cls; for (int i = 0; i < 3; i++) cls.push_back(class_req(g, 40));
+  P0.ops.push_back(mk(OP_reserve_arena, 0, (64 + 32 * g.below(3)) * MiB, g.below(2), 1 /*exclusive*/));
+  const int order = (int)g.below(3);      // creation order decides the position in the thread's heap list
+  auto mk_bound = [&]() { P0.ops.push_back(mkh(OP_heap_new_in_arena, 0, 0)); };
+  auto mk_asker = [&]() { if (g.chance(0.6)) P0.ops.push_back(mkh(OP_heap_new, 1)); else { Op o = mkh(OP_heap_new_ex, 1, -1, 1 + g.below(3), 0); P0.ops.push_back(o); } };
+  if (order == 0) { mk_bound(); mk_asker(); } else if (order == 1) { mk_asker(); mk_bound(); } else { mk_bound(); mk_asker(); P0.ops.push_back(mkh(OP_heap_new_in_arena, 2, 0)); }
+  for (int t = 1; t <= nleave; t++) P0.ops.push_back(mk(OP_spawn, t));
+  for (int t = 1; t <= nleave; t++) {
+    Program& P = p.progs[(size_t)t]; P.explicit_done = g.chance(0.5);
+    int n = 6 + (int)g.below(30);
+    for (int i = 0; i < n; i++) P.ops.push_back(mk(OP_malloc, (t - 1) * 40 + i, cls[g.below(cls.size())]));
+    for (int i = 0; i < n / 3; i++) P.ops.push_back(mk(OP_free, (t - 1) * 40 + (int)g.below((uint64_t)n)));
+  }
+  for (int t = 1; t <= nleave; t++) P0.ops.push_back(mk(OP_join, t));
+  // the asking heap needs fresh segments: it reclaims
+  int nb = 3 + (int)g.below(8);
+  for (int i = 0; i < nb; i++) { Op o = mk(OP_malloc, 100 + i, (g.chance(0.6) ? 9 : 3) * MiB + g.below(4 * MiB)); o.hslot = 1; P0.ops.push_back(o); if (g.chance(0.4)) P0.ops.push_back(mk(OP_check_owner, (int)g.below(80))); }
+  // now the bound heap allocates in the classes of the adopted pages: everything it returns must lie in its arena
+  for (int i = 0; i < 60; i++) { Op o = mk(OP_malloc, 120 + i, cls[g.below(cls.size())]); o.hslot = (order == 2 && g.chance(0.5)) ? 2 : 0; o.flags = OPF_MAY_FAIL; P0.ops.push_back(o); }
+  for (int i = 0; i < 12; i++) P0.ops.push_back(mk(OP_check_owner, (int)g.below(80)));
+  P0.ops.push_back(mk(OP_verify_all));
+}
+
 // ---------------------------------------------------------------------------------
 // C17: hardened builds detect misuse
 // ---------------------------------------------------------------------------------
@@ -1412,6 +1456,7 @@ static const FamilyDef FAMILIES[] = {
   {"c05_pagecycle", "C05", fam_c05_pagecycle, 1, false},
   {"c09_adopt_race", "C09", fam_c09_adopt_race, 0, true},
   {"c02_forceabandon", "C02", fam_c02_forceabandon, 0, true},
+  {"c15_reclaim_route", "C15", fam_c15_reclaim_route, 0, true},
   {"c15_arenas", "C15", fam_c15_arenas, 0, true},
   {"c17_misuse", "C17", fam_c17_misuse, 1, true},
   {"c03_align", "C03", fam_c03_align, 1, false},
